@@ -156,7 +156,7 @@ def _proc_state(pid):
 
 
 def run(args, cwd, home, tz="UTC", trace=False, wall=WALL_LIMIT_S, env_extra=None,
-        stdout=None, strace=None, uid=None, binary_path=None, wrapper=None, fake_epoch=None):
+        stdout=None, strace=None, uid=None, binary_path=None, wrapper=None, fake_epoch=None, stdin_data=None):
     """args: the argument vector after the program name.
     strace: None or list of extra strace options (output is collected in Result.strace).
     uid: run as this uid/gid through setpriv.
@@ -197,7 +197,7 @@ def run(args, cwd, home, tz="UTC", trace=False, wall=WALL_LIMIT_S, env_extra=Non
     r.argv = list(args)
     t0 = time.time()
     try:
-        p = subprocess.Popen(argv, cwd=cwd, env=env, stdin=subprocess.DEVNULL,
+        p = subprocess.Popen(argv, cwd=cwd, env=env, stdin=subprocess.DEVNULL if stdin_data is None else subprocess.PIPE,
                              stdout=subprocess.PIPE if stdout is None else stdout,
                              stderr=subprocess.PIPE, preexec_fn=_limits)
     except OSError as e:
@@ -205,7 +205,7 @@ def run(args, cwd, home, tz="UTC", trace=False, wall=WALL_LIMIT_S, env_extra=Non
         r.err = str(e).encode()
         return r
     try:
-        out, err = p.communicate(timeout=wall)
+        out, err = p.communicate(stdin_data, timeout=wall)
     except subprocess.TimeoutExpired:
         st = _proc_state(p.pid)
         # classify: blocked forever in open() of a FIFO, or something else
@@ -250,3 +250,41 @@ def run(args, cwd, home, tz="UTC", trace=False, wall=WALL_LIMIT_S, env_extra=Non
         except OSError:
             r.strace = ""
     return r
+
+
+def run_session(queries, cwd, home, **kw):
+    """Interactive mode (`fselect -i`, documented in the README) fed through a pipe: the queries run one after the other in ONE
+    process; stdout is the plain concatenation of their outputs. Each query is one line, so it must not contain a newline."""
+    assert all("\n" not in q for q in queries)
+    return run(["-i"], cwd=cwd, home=home, stdin_data=("\n".join(queries) + "\nquit\n").encode("utf-8", "surrogateescape"), **kw)
+
+
+def session_matches(res, queries, cwd, home, what, **kw):
+    """History oracle shared by several checks: a query's output does not depend on the queries that ran before it in the same
+    process. Returns True (held), False (violation recorded) or None (inconclusive: some run did not complete)."""
+    singles = []
+    for q in queries:
+        r = run([q], cwd=cwd, home=home, **kw)
+        res.ev()
+        if r.verdict != "ok" or r.rc != 0 or r.err:
+            return None
+        singles.append(r.out)
+    rs = run_session(queries, cwd, home, **kw)
+    res.ev()
+    if rs.verdict != "ok":
+        if rs.verdict in ("busy", "blocked"):
+            res.viol("%s: interactive session %s on %s" % (what, rs.verdict, queries), {"queries": queries, "result": rs.brief()})
+            return False
+        return None
+    if rs.panicked or rs.out != b"".join(singles) or rs.err.strip() not in (b"", b"CTRL-D"):
+        k = 0
+        acc = b""
+        for k, o in enumerate(singles):
+            if not rs.out.startswith(acc + o):
+                break
+            acc += o
+        res.viol("%s: in one interactive session the output of query %d (`%s`) differs from its output when run alone (status %s, stderr %r)" % (
+            what, k + 1, queries[k][:160], rs.rc, rs.err[:120]), {"queries": queries, "session": rs.brief(), "alone": [o[:300].decode("utf-8", "replace") for o in singles]})
+        return False
+    res.count("sessions_checked")
+    return True
